@@ -21,7 +21,7 @@ func init() { core.Register("C13", Run) }
 type item struct {
 	kind   string // text | call | children | for | if | elem | str | gostr
 	text   string
-	callee string // template name or hand-written expression (str/gostr: the component handed to rs(ctx, .))
+	callee string  // template name or hand-written expression (str/gostr: the component handed to rs(ctx, .))
 	block  []*item // call: the block; for: the body; if: the then branch; elem: the element's children
 	els    []*item // if: the else branch
 	cond   string  // if: "!b0" (true) or "b0" (false), see the argument tuple in Run
@@ -31,10 +31,11 @@ type item struct {
 }
 
 // forms: which call-site syntaxes the body of one template (including the blocks it passes) may use.
-//   at     @x / @x { block }
-//   legacy {! x }                          the deprecated call expression (parser.CallTemplateExpression)
-//   str    { rs(ctx, x) }                  a string-expression helper that renders x with the body's ctx
-//   gov    {{ v := rs(ctx, x) }} { v }     the same from raw Go code
+//
+//	at     @x / @x { block }
+//	legacy {! x }                          the deprecated call expression (parser.CallTemplateExpression)
+//	str    { rs(ctx, x) }                  a string-expression helper that renders x with the body's ctx
+//	gov    {{ v := rs(ctx, x) }} { v }     the same from raw Go code
 type forms struct{ at, legacy, str, gov bool }
 
 func (f forms) String() string {
@@ -457,8 +458,8 @@ func helperEnv(g *gen, defs []tdef) []string {
 // stats of one template for the evidence histogram
 type tstat struct {
 	legacy, str, gov, at, blocks int
-	nestedOnly                  bool // every component use sits inside a for / if / element / block (none at top level)
-	blockToNoAt                 int  // calls WITH a block whose callee is a generated template without @ and without slot
+	nestedOnly                   bool // every component use sits inside a for / if / element / block (none at top level)
+	blockToNoAt                  int  // calls WITH a block whose callee is a generated template without @ and without slot
 }
 
 func statsOf(d tdef, dm map[string]tdef) tstat {
@@ -494,9 +495,9 @@ func statsOf(d tdef, dm map[string]tdef) tstat {
 }
 
 func Run(c *core.Ctx) {
-	c.Rule = "programs: random component call trees (depth <= 4) over generated callees that use (Card), repeat (Twice) or ignore (Ign) their slot, callees that never place their children and whose bodies are themselves random trees (Leg), intermediate templates that pass their own children on inside a nested block (Mid), two-iteration for loops, if/else and elements around calls, and hand-written callees (wrap, capt - which renders its children into a plain non-flushable bytes.Buffer -, hflush - which renders templ.Flush() with its children into a plain writer -, flushWith(c) - which hands a component to templ.Flush() as children -, templ.Join of once handles / Flush, eager(ctx, c) - whose call expression renders a slot-bearing component while it is evaluated -, ignore, templ.Raw, two once handles, templ.Flush), with and without blocks, siblings after unconsumed blocks; every call site without a block is written in one of four syntaxes - @x, the legacy call expression {! x }, a string-expression helper { rs(ctx, x) } that renders x with the body's ctx, the same helper called from raw Go code {{ v := rs(ctx, x) }} { v } - and every template draws the set of syntaxes its body may use (all four / @ only / @ and some / no @ at all: only legacy calls and helpers, so no blocks either); each block carries unique marker texts; distinct non-trivial = distinct templates rendered as entry"
+	c.Rule = "programs: random component call trees (depth <= 4) over generated callees that use (Card), repeat (Twice) or ignore (Ign) their slot, callees that never place their children and whose bodies are themselves random trees (Leg), intermediate templates that pass their own children on inside a nested block (Mid), two-iteration for loops, if/else and elements around calls, call-heavy item lists (one in three: no plain texts, so calls and loops of calls are adjacent siblings), the first fifth of the files with shallower trees, and hand-written callees (wrap, capt - which renders its children into a plain non-flushable bytes.Buffer -, hflush - which renders templ.Flush() with its children into a plain writer -, flushWith(c) - which hands a component to templ.Flush() as children -, templ.Join of once handles / Flush, eager(ctx, c) - whose call expression renders a slot-bearing component while it is evaluated -, ignore, templ.Raw, two once handles, templ.Flush), with and without blocks, siblings after unconsumed blocks; every call site without a block is written in one of four syntaxes - @x, the legacy call expression {! x }, a string-expression helper { rs(ctx, x) } that renders x with the body's ctx, the same helper called from raw Go code {{ v := rs(ctx, x) }} { v } - and every template draws the set of syntaxes its body may use (all four / @ only / @ and some / no @ at all: only legacy calls and helpers, so no blocks either); each block carries unique marker texts; distinct non-trivial = distinct templates rendered as entry"
 	c.Proofs()
-	nFiles := c.N(100, 1000)
+	nFiles := c.N(100, 800)
 	per := 120
 	renderOK, oracleOK := true, true
 	for start := 0; start < nFiles; start += per {
